@@ -80,13 +80,6 @@ namespace raptor
                 delete[] weights;
                 weights = NULL;
 
-                // sor/ssor read the diagonal as the first entry of each row
-                for (int i = 0; i < num_levels; i++)
-                {
-                    levels[i]->A->sort();
-                    levels[i]->A->move_diag();
-                }
-
                 form_dense_coarse();
             }
 
